@@ -14,6 +14,8 @@ REVERSE = {'CS_Photo_Total': ('CSb_Photo_Total', None), 'CS_Photo_Partial': ('CS
 
 
 def run(prog, tier):
+    from rules.common import register_error_functions
+    register_error_functions(prog)
     chk = Check('C05', tier, 'other',
                 'Identity shapes decided on the abstract paths of every aggregate / unit-variant entry point: each barn '
                 'twin returns its cm2/g twin (same arguments, same order) times A/N_A, tested before use; CS_Total and '
